@@ -8,8 +8,8 @@ namespace c02 {
 
 static const size_t W = 1000;   // product coding of the reference
 
-static void body(Env& env, const std::string& stage, int n, const dom::Alphabet& sig, int perSide, int totalMax) {
-  auto D = std::make_shared<dom::TADomain>(n, sig, perSide);
+static void body(Env& env, const std::string& stage, int n, const dom::Alphabet& sig, int perSide, int totalMax, bool trimmedOnly = false) {
+  auto D = std::make_shared<dom::TADomain>(n, sig, perSide, !trimmedOnly, trimmedOnly); if (trimmedOnly) D->keepTrimmedOnly();
   auto P = std::make_shared<dom::PairIndex>(*D, totalMax);
   env.noteNum(stage + ".automata", D->size());
   ParallelOpts o; o.stage = stage; o.size = P->total; o.block = 512;
@@ -81,4 +81,8 @@ static Register r3("c02.n2s2k4", "C02", "pairs of TA(2,{a:0,b:0,g:2},<=4 per sid
 static Register r4("c02.n2s3k3", "C02", "pairs of TA(2,{a:0,b:0,f:1,g:2},<=3 per side)", [](Env& e) { body(e, "c02.n2s3k3", 2, dom::Sigma3(), 3, 6); });
 static Register r5("c02.n3s3pk4", "C02", "pairs of TA(3,{a:0,f:1,g:2}), total <=4 rules", [](Env& e) { body(e, "c02.n3s3pk4", 3, dom::Sigma3p(), 4, 4); });
 
+static Register t1("c02.trim.n3s3pk3", "C02", "pairs of TRIMMED automata of TA(3,{a:0,f:1,g:2},<=3 per side)", [](Env& e) { body(e, "c02.trim.n3s3pk3", 3, dom::Sigma3p(), 3, 6, true); });
+static Register t2("c02.trim.n3afhk3", "C02", "pairs of TRIMMED automata of TA(3,{a:0,f:1,h:3},<=3 per side) (ternary symbol)", [](Env& e) { body(e, "c02.trim.n3afhk3", 3, dom::SigmaAFH(), 3, 6, true); });
+static Register t3("c02.trim.n3s3pk4", "C02", "pairs of TRIMMED automata of TA(3,{a:0,f:1,g:2},<=4 per side), total <=7", [](Env& e) { body(e, "c02.trim.n3s3pk4", 3, dom::Sigma3p(), 4, 7, true); });
+static Register t4("c02.trim.n4s3pk3", "C02", "pairs of TRIMMED automata of TA(4,{a:0,f:1,g:2},<=3 per side)", [](Env& e) { body(e, "c02.trim.n4s3pk3", 4, dom::Sigma3p(), 3, 6, true); });
 }  // namespace c02
